@@ -7,5 +7,5 @@ git -C /repo worktree add -q $d HEAD || exit 2
 cd /verif && VERIF_REPO=$d ./check $prop --tier $tier 2>&1 | grep -v "^KNOWN-FINDING\|^NOTE" | tail -${TAIL:-4}
 rc=${PIPESTATUS[0]}
 git -C /repo worktree remove --force $d
-rm -f /verif/.build/alt-_tmp_rs_*
+rm -f /verif/.build/alt-$(echo $d | sed "s/[^A-Za-z0-9_]/_/g").mod /verif/.build/alt-$(echo $d | sed "s/[^A-Za-z0-9_]/_/g").sum
 exit $rc
